@@ -147,7 +147,7 @@ def device_fmmus(prog, rep, tag):
     pr = Prov(b)
     inc = b.calls_to("PdiOffset::increment_byte_aligned")
     ok = len(inc) == 1 and has_root(pr.of_operand(inc[0].args[1]), "arg", 2) or (len(inc) == 1 and any(x[0] == "upvar" and x[2] == "sm_bit_len" for x in pr.of_operand(inc[0].args[1])))
-    fm = q.aggregates(b, "Fmmu")
+    fm = _fresh_fmmu_literals(b)
     ok2 = len(fm) == 1
     if ok2:
         s = fm[0][2]
@@ -425,7 +425,7 @@ def tables(prog, rep, tag):
     ok = got.get("MasterRead") == {"ProcessDataRead", "Inputs"} and got.get("MasterWrite") == {"ProcessDataWrite", "Outputs"}
     rep.ob(P, "filter_terms" + tag, ok, "MasterRead -> (ProcessDataRead, Inputs); MasterWrite -> (ProcessDataWrite, Outputs); got %s" % got, loc=b.span, how="table")
     w = prog.async_body("configuration::write_fmmu_config")
-    fm = q.aggregates(w, "Fmmu")
+    fm = _fresh_fmmu_literals(w)
     ok = len(fm) == 1
     if ok:
         s = fm[0][2]
@@ -496,3 +496,20 @@ def sm_classification(prog, rep, tag):
     users = sorted({c.body.root_short for c in prog.calls_of("SyncManager::usage_type") if c.body.crate == "ethercrab" and not c.body.d.get("is_test")})
     want = {"configuration::configure_mailbox_sms", "configuration::configure_pdos_coe", "configuration::configure_pdos_eeprom"}
     rep.ob(P, "classified-through-accessor" + tag, want <= set(users), "the three configuration paths classify sync managers through SyncManager::usage_type(): %s" % users, how="inventory")
+
+
+def _fresh_fmmu_literals(b):
+    """Fmmu literals that describe a *new* mapping.  A literal that only carries the mapping read back from the device
+    on with a longer length (`Fmmu { length_bytes: .., ..existing }`, the shared-FMMU extension written as a struct
+    update instead of a field assignment) is not one: every field but the length comes from the read."""
+    out = []
+    pr = Prov(b)
+    for x in q.aggregates(b, "Fmmu"):
+        st = x[2]
+        la = pr.of_operand(q.agg_field(st, "logical_start_address"))
+        pa = pr.of_operand(q.agg_field(st, "physical_start_address"))
+        from_read = lambda r: any(y[0] == "await" and str(y[1]).endswith("::receive") for y in r)  # noqa: E731
+        if from_read(la) and from_read(pa) and not has_root(la, "field", "PdiOffset", "start_address"):
+            continue
+        out.append(x)
+    return out
